@@ -28,6 +28,11 @@ func scenForgeSess(r *Run) {
 		o.BytesAB += 20000
 	}
 	o.MaxVirtual = 3 * time.Minute
+	if r.Spec.Prop == "C05" {
+		// occupancy beyond the window limits under forged input is this property's
+		// "allocates without bound"
+		s.Alias = map[string]string{"C04": "C05"}
+	}
 	x := NewXfer(r, o)
 	w := x.W
 	recent := map[string][][]byte{}
@@ -141,6 +146,37 @@ func scenForgeSess(r *Run) {
 						ep.In.NoCheck = true
 					}
 				}
+			}
+			if len(pl) >= off0(fec)+24 && t.Chance("forge-flood", 120) {
+				// A peer that ignores the window it is shown: a burst of well-formed PUSH
+				// segments with consecutive sequence numbers, as many as twice the
+				// largest window, while the application reads at its own pace (a tape
+				// stream of its own: older tapes keep their meaning)
+				const ff = "forge-flood"
+				o0 := off0(fec)
+				h := pl[o0:]
+				conv := binary.LittleEndian.Uint32(h[0:])
+				sn0 := binary.LittleEndian.Uint32(h[12:]) + uint32(t.Choose(ff, 8))
+				una := binary.LittleEndian.Uint32(h[16:])
+				n := 1 + t.Skewed(ff, 0, 600)
+				ln := 1 + t.Choose(ff, 40)
+				noJudge()
+				s.L.Logf("inject a burst of %d forged PUSH segments sn %d.. (%d bytes each) into %s as from %s", n, sn0, ln, to.addrStr, from)
+				s.Stats.Fault("forged:push-flood")
+				for j := 0; j < n; j++ {
+					seg := make([]byte, 24+ln)
+					putSeg(seg, conv, 81, 0, 32, 0, sn0+uint32(j), una, uint32(ln))
+					fp := seg
+					if fec {
+						fp = make([]byte, 8+len(seg))
+						binary.LittleEndian.PutUint32(fp, binary.LittleEndian.Uint32(pl)+uint32(1+j))
+						binary.LittleEndian.PutUint16(fp[4:], 0xf1)
+						binary.LittleEndian.PutUint16(fp[6:], uint16(len(seg)+2))
+						copy(fp[8:], seg)
+					}
+					w.Net.Deliver(to.addrStr, from, seal(fp, j%250), "forge")
+				}
+				return
 			}
 			if fec && len(pl) >= 8+24 && t.Chance(fs, 250) {
 				// A Reed-Solomon-consistent forged group: d-1 data packets and one
@@ -338,6 +374,13 @@ func scenForgeSess(r *Run) {
 	x.Census()
 	_ = fmt.Sprint
 	_ = kcp.IKCP_OVERHEAD
+}
+
+func off0(fec bool) int {
+	if fec {
+		return 8
+	}
+	return 0
 }
 
 func init() {
